@@ -456,7 +456,8 @@ MClose(w) ==                 \* store_impl.rs:495-511 (guard: dispatch_tx lock f
 
 MClosed(w) ==                \* close() has returned
     IF CurOp(w).op = "close" THEN OpEnd(w, "ok")
-    ELSE Park(w, "stop.pool", "stop.pool", 0)
+    ELSE IF "F2" \in Defects \/ w.pool # "present" THEN Park(w, "stop.pool", "stop.pool", 0)
+    ELSE Park(w, "stop.drain", "stop.drain", 0)     \* stop(): wait for the backlog first (fix of F2)
 
 MStopPool(w) ==              \* stop / drop_store, store_impl.rs:519-527: take the pool
     IF w.pool = "present"
@@ -596,6 +597,7 @@ Micro(w) ==
       [] p = "spop"      -> MTry2(w)
       [] p = "sent"      -> MSent(w)
       [] p = "closed"    -> MClosed(w)
+      [] p = "stop.drain" -> Park(w, "stop.pool", "stop.pool", 0)      \* pool.join_timeout returned (guard: idle)
       [] p = "stop.pool" -> MStopPool(w)
       [] p = "join"      -> MJoin(w)
       [] p = "iter.end"  -> MIterEnd(w)
@@ -669,7 +671,7 @@ CanLeave(t) ==
                  [] o.op = "add_mw" -> lk["mws"] = "-"
                  [] OTHER -> TRUE
       [] p = "send" -> ChanPol(l.ch) = "block" /\ ~RxGone(chan, l.ch) => Len(chan[l.ch].q) < ChanCap(l.ch)
-      [] p = "join" -> PoolIdle
+      [] p \in {"join", "stop.drain"} -> PoolIdle
       [] p \in {"iter.end", "iter.drop"} -> lk["subs"] = "-"
       [] p = "ctxdrop" -> lk[CtxLock(l.us)] = "-"
       [] p = "chjoin" -> pc[ChName(l.us)] = "exited"
